@@ -8,7 +8,8 @@ From MC Require Import Check.Composite_check.
 Local Open Scope list_scope.
 
 Record dround := mkDRound { d_cache : dcache; d_events : list ev; d_result : sync_result;
-                            d_queue : list (string * string * Z) }.   (* op, key, delay in ms *)
+                            d_queue : list (string * string * Z);   (* op, key, delay in ms *)
+                            d_mutated : string }.   (* cache-fingerprint oracle: "" or which cached object the sync changed *)
 Record dcase := mkDCase { d_cfg : dcfg; d_rounds : list dround;
                           d_flags : list string }.    (* scenario features *)
 
@@ -88,6 +89,22 @@ Definition C16_check (c : dcase) : verdict :=
 Definition C06d_check (c : dcase) : verdict :=
   if negb (forallb round_in_domain (d_rounds c)) then SKIP "target-annotation-holds-embedded-json" else
   match first_dround_fail (fun r => C06d_round (d_cfg c) (d_cache r) (d_events r) (d_result r)) (d_rounds c) 0 with
+  | Some w => PROPFAIL w
+  | None => OK
+  end.
+
+(* ---------- C10, decorator leg: finalizer discipline ---------- *)
+Definition C10d_check (c : dcase) : verdict :=
+  if negb (forallb round_in_domain (d_rounds c)) then SKIP "target-annotation-holds-embedded-json" else
+  match first_dround_fail (fun r => C10d_prop_round (d_cfg c) (d_cache r) (d_events r)) (d_rounds c) 0 with
+  | Some w => PROPFAIL w
+  | None => OK
+  end.
+
+(* ---------- C17, decorator leg: the shared informer caches are read-only ---------- *)
+Definition C17d_check (c : dcase) : verdict :=
+  match first_dround_fail (fun r => if String.eqb (d_mutated r) "" then None
+                                    else Some ("shared-cache-mutated-" ++ d_mutated r)%string) (d_rounds c) 0 with
   | Some w => PROPFAIL w
   | None => OK
   end.
